@@ -4,7 +4,7 @@ CFG = P(
         harness=["harness/C03.cc", "harness/C03_optypes.cc", "harness/C03_bswap.cc"], harness_deps=["harness/C03_common.hh"], srcs=[],
         rule="a case is one (wrapper type, operator, operand, stored value) tuple or one (helper function, input) pair; all tuples are distinct by construction (odometer enumeration, no duplicates); a case is non-trivial when the native operator's result is defined and was compared (pairs whose native result is undefined - signed overflow, division by zero, INT_MIN/-1 - are executed-not-compared and not counted)",
         bounds={
-            "quick": "16-bit wrappers: all 65536 values x 17 operators x operand set; 32-bit: L9^4+walking+all-distinct; 64-bit: L5^8+walking+all-distinct for ctor/=/store, 755-value lane set for binary operators; float/double lane sets bit-exact; bswap16 all, bswap24/24s/ext24 all 2^24, bswap32/32f lane set, bswap48/48s/ext48 L5^6, bswap64/64f L5^8, sign_extend all 8/16-bit sources",
+            "quick": "16-bit wrappers: all 65536 values x 17 operators x operand set; operand-type matrix (every compound operator x operand types int/unsigned/int64/uint64/uint8/uint16/int8/int16 and float/double for the float wrappers x boundary operand values x boundary stored values, all 24 wrapper types); 32-bit: L9^4+walking+all-distinct; 64-bit: L5^8+walking+all-distinct for ctor/=/store, 755-value lane set for binary operators; float/double lane sets bit-exact; bswap16 all, bswap24/24s/ext24 all 2^24, bswap32/32f lane set, bswap48/48s/ext48 L5^6, bswap64/64f L5^8, sign_extend all 8/16-bit sources",
             "thorough": "quick bounds plus: all 2^32 bit patterns x {ctor/load/raw bytes,++x,x++,--x,x--} x 6 32-bit wrapper types (le/be x u32/s32/float); all 2^32 inputs of bswap32/bswap32f/bswap<>/sign_extend<64,32>; 64-bit binary operators on the full L5^8 set",
         },
         explanation="E-ENUM over the real header templates; oracle = the same C++ operator applied to a native variable (stored value and value of the expression), raw object bytes vs an independent encoder (compiler byte-swap intrinsic), bswap helpers vs a byte-lane loop, sign extension vs arithmetic definition",
